@@ -143,6 +143,7 @@ def c06(tier):
     c = new_check("C06", tier)
     for model, cfg in cfgs("mc/MC_Resolve", tier, [""]):
         mc_replay(c, model, cfg, "all (base, reference) pairs of the component vocabularies + the 42 examples of RFC 3986 5.4")
+    drive_and_validate(c, tier, ops={"resolve"})
     return c.finish(rule="bases x references composed from scheme/authority/path/query/fragment vocabularies, every 5.2.2 "
                          "branch with dot and empty segments; expected = set of admissible results computed by spec/Resolve.tla",
                     assumptions=TRUST + ["RFC 3986 5.2.2-5.2.4, 5.3 transcription in spec/Resolve.tla (reproduces all 42 "
@@ -179,6 +180,30 @@ EDIT_TRUST = TRUST + ["documented disambiguation rules R1-R3 as stated in C05 (s
                       "sufficient for validity and for re-parsing to the intended components"]
 
 
+EDIT_PROP = {"set_scheme": "C05", "set_authority": "C05", "set_path": "C05", "set_query": "C05", "set_fragment": "C05",
+             "push": "C10", "pop": "C10", "clear": "C10", "sym_push": "C10", "normalize": "C10",
+             "set_userinfo": "C11", "set_host": "C11", "set_port": "C11", "resolve": "C06"}
+
+
+def charge_edit(ev, why):
+    """Properties a non-conforming edit event is charged to."""
+    props = [EDIT_PROP.get(ev.get("op"), "C04")]
+    if why in ("panic", "invalid"):
+        props.append("C04")
+    return props
+
+
+def drive_and_validate(c, tier, ops=None):
+    """Direction B: random edit histories on the real buffers, each call judged by TLC."""
+    hist, steps = (1500, 30) if tier == "quick" else (40000, 40)
+    ev = vlib.run_drive("%s-%s" % (c.pid, tier), hist, steps)
+    sel = (lambda e: e.get("op") in ops) if ops else None
+    n, bad, tr = vlib.run_trace(ev, name="%s-edit-%s" % (c.pid, tier), select=sel)
+    c.add_trace(n, bad, tr, "random edit histories (long texts, multi-byte, 30-40 calls each) recorded from the real "
+                            "buffers; every call judged by TLC from the implementation's own previous text", charge=charge_edit)
+    c.exhaustive = False
+
+
 def c04(tier):
     c = new_check("C04", tier)
     c.group_key = beh_key
@@ -190,6 +215,7 @@ def c04(tier):
         mc_replay(c, model, cfg, "call sequences through one authority handle")
     for model, cfg in cfgs("mc/MC_Paths", tier, [""]):
         mc_replay(c, model, cfg, "in-place normalisation stand-alone and inside references")
+    drive_and_validate(c, tier)
     return c.finish(rule="editor state graph: nodes = texts reachable within the length bound from 5 initial buffers, "
                          "edges = every mutator with every vocabulary argument; plus handle behaviours",
                     assumptions=EDIT_TRUST)
@@ -199,6 +225,7 @@ def c05(tier):
     c = new_check("C05", tier)
     for model, cfg in cfgs("mc/MC_Editor", tier, [""]):
         mc_replay(c, model, cfg, "setter edges: expected text fixed by the specification (R1-R3 mandatory exactly when needed)")
+    drive_and_validate(c, tier, ops={"set_scheme", "set_authority", "set_path", "set_query", "set_fragment"})
     return c.finish(rule="the five setters with every vocabulary argument from every reachable text",
                     assumptions=EDIT_TRUST)
 
@@ -210,6 +237,7 @@ def c10(tier):
         mc_replay(c, model, cfg, "all call sequences of bounded depth through one path handle, in 6 contexts")
     for model, cfg in cfgs("mc/MC_Editor", tier, [""]):
         mc_replay(c, model, cfg, "single path-editing calls from every reachable text")
+    drive_and_validate(c, tier, ops={"push", "pop", "clear", "sym_push", "normalize"})
     return c.finish(rule="contexts x initial paths x all sequences of push/pop/clear/symbolic_push/symbolic_append/normalize",
                     assumptions=EDIT_TRUST)
 
@@ -220,6 +248,7 @@ def c11(tier):
         mc_replay(c, model, cfg, "all call sequences of bounded depth through one authority handle; exact view and text after each call")
     for model, cfg in cfgs("mc/MC_Editor", tier, [""]):
         mc_replay(c, model, cfg, "single authority-editing calls from every reachable text")
+    drive_and_validate(c, tier, ops={"set_userinfo", "set_host", "set_port"})
     return c.finish(rule="initial references x all sequences of set_userinfo/set_host/set_port",
                     assumptions=EDIT_TRUST)
 
